@@ -49,6 +49,7 @@ fn oracles() -> Vec<(&'static str, Enumerate, Check)> {
         ("c06_mgu", o_mgu::enum_mgu, o_mgu::check_mgu),
         ("c09_mgu", o_mgu::enum_mgu_anon, o_mgu::check_mgu),
         ("c06_keeps", o_unify::enum_keeps, o_unify::check_keeps),
+        ("c07_sym", o_mgu::enum_sym, o_mgu::check_sym),
     ]
 }
 
